@@ -11,6 +11,8 @@ CLASS_HOME = {
     'LinearBlockGS': 'openmdao/solvers/linear/linear_block_gs.py',
     'NewtonSolver': 'openmdao/solvers/nonlinear/newton.py',
     'NonlinearBlockGS': 'openmdao/solvers/nonlinear/nonlinear_block_gs.py',
+    'Autoscaler': 'openmdao/drivers/autoscalers/autoscaler.py',
+    'OptimizerVector': 'openmdao/vectors/optimizer_vector.py',
     'LinesearchSolver': 'openmdao/solvers/linesearch/backtracking.py',
     'BoundsEnforceLS': 'openmdao/solvers/linesearch/backtracking.py',
     'ArmijoGoldsteinLS': 'openmdao/solvers/linesearch/backtracking.py',
@@ -20,6 +22,7 @@ PROPERTY_MODULES = {
     'C10': ['contracts.c10_bounds'],
     'C33': ['contracts.c33_vector'],
     'C09': ['contracts.c09_solvers'],
+    'C20': ['contracts.c20_scaling'],
 }
 
 # modules whose contracts may be used as callee contracts by any property
@@ -48,6 +51,7 @@ PROPERTY_ASSUMPTIONS = {
             'assumed: _iter_get_norm returns NaN or a value >= 0; _single_iteration and _run_apply neither raise nor modify solver control state'],
 }
 GAPS = {
+    'C20': ['unit part of total_scaler/total_adder (System._setup_driver_units, add_design_var/add_response normalisation)', '_TotalJacInfo._apply_unit_scaling/_identify_unit_active_vars', 'Autoscaler._compute_scaled_bounds slice layout loop', 'OptimizerVector.update_from_model / create_from_model', 'Driver._get_voi_val / _set_design_var unit branches'],
     'C09': ['BroydenSolver._iter_initialize (array dtype conversions outside the subset)', 'ScipyKrylov / PETScKrylov delegate to external iterations', 'ArmijoGoldsteinLS / BoundsEnforceLS inner iteration counts', 'exceptions raised by subsystems inside _single_iteration'],
     'C33': ['DefaultVector._initialize_data (views tile [0,end) in order)', 'Vector.set_var / __getitem__ name lookup and indexer path', 'non-contiguous / distributed vectors'],
     'C10': ['composition with NewtonSolver._single_iteration (that the line search is called with u += alpha*du just applied) is covered only for BoundsEnforceLS._solve / ArmijoGoldsteinLS._iter_initialize call protocol',
